@@ -293,6 +293,28 @@ def corpus():
     ]
 
 
+SPECIAL = [0x2C, 0x20, 0x27, 0x22, 0x5C, 0x5B, 0x5D, 0x28, 0x29, 0x62, 0x78, 0x0A, 0x0D, 0x00, 0x09, 0x7F, 0xFF, 0x30, 0x3A, 0x48]
+
+
+def serialize_sweep(rng, tier):
+    """Fogs whose serialised prefixes contain the bytes that mean something to the textual format (comma, blank, quotes, backslash,
+    brackets, 'b', 'x', control characters): every single byte, every pair of special bytes, at both alignments (even-length
+    prefix: flag byte then the bytes; odd-length: the first nibble shares the flag byte), and random strings of special bytes.
+    Judged by the round-trip rule alone."""
+    def nibs(bs):
+        return [x for b in bs for x in (b >> 4, b & 15)]
+    segs = [nibs([b]) for b in range(256)] + [nibs([a, b]) for a in SPECIAL for b in SPECIAL]
+    for _ in range(300 if tier == "quick" else 3000):
+        segs.append(nibs([rng.choice(SPECIAL) if rng.random() < 0.8 else rng.randrange(256) for _ in range(rng.randint(2, 6))]))
+    cases = []
+    for sg in segs:
+        for lead in ([], [rng.randrange(16)], [2], [12]):
+            p = lead + sg
+            other = [(p[0] + 1) % 16]
+            cases.append([("explore", [], [p, other]), ("rt",), ("explore", p, [[2, 12, 2, 0], [7]]), ("rt",)])
+    return cases
+
+
 def check(tier, seed):
     R = C.Reporter("C11", tier, seed)
     R.gate = C.proof_gate("C11")
@@ -313,6 +335,13 @@ def check(tier, seed):
             if len(R.samples) < 2:
                 R.samples.append(C.to_json({"ops": ops, "impl": outs}))
         terms.append(f"({clist([cop(o) for o in ops])}, {cobs(outs)})")
+    for ops in serialize_sweep(rng, tier):
+        outs, aux = run_impl(ops)
+        R.evaluations += 1
+        R.count("serialize_sweep")
+        bad = oracle(ops, outs, aux)
+        if bad:
+            R.spec_violations.append((bad, {"ops": ops}))
     shard = 100 if tier == "quick" else 400
     mism, errs, nsh = C.eval_cases("C11", "cases", IMPORTS, "c11_run", CASE_T, terms, shard=shard)
     R.shards, R.coq_errors = nsh, errs
